@@ -2,11 +2,12 @@
 # development tool: run the quick tier of every check (or of $CHECKS) against property-preserving changes of /repo, each
 # slot in a private mount namespace whose /repo and /verif are copies (so /repo itself is never touched).
 # usage: benign_ns.sh <slot> <patch.diff> ...      results: /tmp/benign/results/<patch name>.txt
+# a patch named like I-C17-2.diff (written by a sub-agent for property C17) is also run against that property's check
 slot=$1; shift
 d=/tmp/benignslot$slot
 rm -rf $d; mkdir -p $d /tmp/benign/results
 rsync -a --exclude target /repo/ $d/repo/
 rsync -a --exclude fuzz/target --exclude .build/fuzz-run --exclude .build/logs --exclude .build/fuzz /verif/ $d/verif/
 checks="${CHECKS:-C01 C02 C03 C04 C05 C06 C07 C08 C09 C10 C11 C12 C13 C14 C15 C16 C17 C18 C19 C20}"
-unshare -m bash -c "mount --bind $d/repo /repo && mount --bind $d/verif /verif && cd /verif && for p in $*; do n=\$(basename \$p .diff); r=/tmp/benign/results/\$n.txt; : > \$r; git -C /repo checkout -q -- . ; git -C /repo apply \$p || { echo 'patch does not apply' >> \$r; continue; }; for c in $checks; do ./check \$c quick > /tmp/benign/results/\$n.\$c.log 2>&1; e=\$?; echo \"\$c exit=\$e known=\$(grep -c KNOWN-FINDING /tmp/benign/results/\$n.\$c.log) \$(grep -E 'VIOLATION|HARNESS-ERROR|NOTE:' /tmp/benign/results/\$n.\$c.log | head -3 | tr '\n' ' ')\" >> \$r; done; git -C /repo checkout -q -- . ; done"
+unshare -m bash -c "mount --bind $d/repo /repo && mount --bind $d/verif /verif && cd /verif && for p in $*; do n=\$(basename \$p .diff); r=/tmp/benign/results/\$n.txt; : > \$r; git -C /repo checkout -q -- . ; git -C /repo clean -fdq src tests ; git -C /repo apply \$p || { echo 'patch does not apply' >> \$r; continue; }; own=\$(echo \$n | grep -o 'C[0-9][0-9]' | head -1); for c in \$(echo \$own $checks | tr ' ' '\n' | awk '!s[\$0]++'); do ./check \$c quick > /tmp/benign/results/\$n.\$c.log 2>&1; e=\$?; echo \"\$c exit=\$e known=\$(grep -c KNOWN-FINDING /tmp/benign/results/\$n.\$c.log) \$(grep -E 'VIOLATION|HARNESS-ERROR|NOTE:' /tmp/benign/results/\$n.\$c.log | head -3 | tr '\n' ' ')\" >> \$r; done; git -C /repo checkout -q -- . ; git -C /repo clean -fdq src tests ; done"
 rm -rf $d
